@@ -665,6 +665,8 @@ func specStrLit(v string) Expression { return StringLiteral{value: v} }
 //@ node-invariant VariableAssignmentCallAssignment a [C13] has-its-call: a.call != nil
 //@ node-invariant For f [C13] has-condition-and-statements: f.condition != nil && forall(k, 0, len(f.body), f.body[k] != nil)
 //@ node-invariant If i [C13] has-conditions-and-statements: i.ifBranch.condition != nil && forall(k, 0, len(i.ifBranch.body), i.ifBranch.body[k] != nil) && forall(j, 0, len(i.elifBranches), i.elifBranches[j].condition != nil && forall(k, 0, len(i.elifBranches[j].body), i.elifBranches[j].body[k] != nil)) && forall(k, 0, len(i.elseBranch.body), i.elseBranch.body[k] != nil)
+//@ node-invariant IfBranch b [C13] every-statement-is-there: forall(k, 0, len(b.body), b.body[k] != nil)
+//@ node-invariant Else e [C13] every-statement-is-there: forall(k, 0, len(e.body), e.body[k] != nil)
 //@ node-invariant FunctionDefinition f [C13] every-statement-is-there: forall(k, 0, len(f.body), f.body[k] != nil)
 //@ node-invariant Program p [C13] every-statement-is-there: forall(k, 0, len(p.body), p.body[k] != nil)
 //
